@@ -35,6 +35,7 @@ ASSUMPTIONS = [
     'the twin object is built from identical inputs and never has '
     'fix_parameters called on it',
     'seeded sampling of twin and reduced object uses the same integer seed',
+    'values 0 / integers are used as fixed values only for location parameters (scale parameters and their covariate coefficients would leave the support)',
 ]
 ANCHORS = [
     'chi._error_models.ReducedErrorModel.fix_parameters',
